@@ -378,6 +378,70 @@ def orset(sym, tier):
     return r
 
 
+_O3 = ([("add", i, None) for i in range(3)] + [("remove", i, None) for i in range(3)]
+       + [("merge", i, j) for i in range(3) for j in range(3) if i != j])
+
+
+def orset3(sym, tier):
+    """Three OR-set replicas, one element, every history of 5 (quick) / 6 operations out of
+    add@i, remove@i, merge i<-j (12 options per step) starting with add@0: after every step each
+    replica contains the element iff it has observed an add whose removal it has not observed;
+    afterwards merging in any order gives the same set (commutative, associative, idempotent)."""
+    r = Result()
+    S = 5 if tier == "quick" else 6
+    reps = [ORSet(NODES[i]) for i in range(3)]
+    seen = [set() for _ in range(3)]
+    removed = [set() for _ in range(3)]
+    nadds = 0
+    script = []
+    for s_ in range(S):
+        kind, i, j = _O3[0] if s_ == 0 else _O3[sym.choice(f"step{s_}", len(_O3))]
+        if kind == "add":
+            reps[i].add("x")
+            seen[i].add(nadds)
+            nadds += 1
+        elif kind == "remove":
+            reps[i].remove("x")
+            removed[i] |= set(seen[i])
+        else:
+            reps[i].merge(reps[j])
+            if removed[j] - seen[i]:
+                r.wit.add("removal_arrives_before_the_add_it_cancels")
+            seen[i] |= seen[j]
+            removed[i] |= removed[j]
+        script.append((kind, i, j))
+        for k in range(3):
+            spec = bool(seen[k] - removed[k])
+            if reps[k].contains("x") != spec:
+                r.bad("orset_contains_iff_unremoved_add", {"script": script, "replica": k, "impl": reps[k].contains("x"), "spec": spec})
+                r.obs = {"script": script}
+                return r
+    # merge laws on the reached states
+    import copy as _copy
+    A, B, C = reps
+
+    def union(*xs):
+        m = ORSet("m")
+        for x in xs:
+            m.merge(_copy.deepcopy(x))
+        return m
+    ref = union(A, B, C)
+    for order in ((A, C, B), (B, A, C), (C, B, A), (B, C, A)):
+        if union(*order).elements != ref.elements:
+            r.bad("orset_merge_order_does_not_matter", {"script": script, "ref": sorted(ref.elements), "other": sorted(union(*order).elements)})
+            break
+    bc = union(B, C)
+    if union(A, bc).elements != ref.elements:
+        r.bad("orset_merge_is_associative", {"script": script})
+    if union(A, A).elements != union(A).elements:
+        r.bad("orset_merge_is_idempotent", {"script": script})
+    spec_all = bool((seen[0] | seen[1] | seen[2]) - (removed[0] | removed[1] | removed[2]))
+    if ref.contains("x") != spec_all:
+        r.bad("orset_converged_value_is_specified", {"script": script, "impl": ref.contains("x"), "spec": spec_all})
+    r.obs = {"script": script}
+    return r
+
+
 def orset_classify(clause, draws, obs):
     return None
 
@@ -462,6 +526,13 @@ HARNESSES = [
       bounds=lambda tier: {"configs": "2 replicas x 4 ops" if tier == "quick" else "2 replicas x 5 ops, 3 replicas x 4 ops",
                            "elements": 2, "first op": "add(x) at replica 0"},
       outside=["more than 3 replicas", "scripts longer than 5 operations"]),
+    H(name="c18_orset3", fn=orset3, shape="S",
+      cubes=lambda tier: [{"step1": a} for a in range(12)] if tier == "quick" else [{"step1": a, "step2": b} for a in range(12) for b in range(12)],
+      budget=lambda tier: 900.0 if tier == "quick" else 3000.0, classify=orset_classify,
+      require=lambda tier: ["removal_arrives_before_the_add_it_cancels"],
+      functions=["ORSet.add/remove/merge/contains/elements"],
+      bounds=lambda tier: {"replicas": 3, "elements": 1, "operations": "5 (quick) / 6, first = add at replica 0, then any of add@i, remove@i, merge i<-j"},
+      outside=["more than 3 replicas", "more than one element in the 3-replica histories"]),
     H(name="c18_orset_roundtrip", fn=orset_roundtrip, shape="I", budget=lambda tier: 300.0, classify=_rt_classify,
       cubes=lambda tier: [{"int_elements": x, "op0": a} for x in (0, 1) for a in range(3)],
       functions=["ORSet.to_dict/from_dict"],
